@@ -29,7 +29,7 @@ class Profile:
     # (127 items = the last one-byte compact length, 16383 the last two-byte one); items cycle through 1-3 generated units
     long_arrays: bool = False
     huge_bytes: bool = False  # 1 in 8 long bytes/records values is about 1 MiB or 1.5 MiB
-    long_array_lengths: tuple = (63, 64, 65, 126, 127, 128, 129, 255, 256, 257, 1000)
+    long_array_lengths: tuple = (63, 64, 65, 96, 100, 126, 127, 128, 129, 192, 200, 255, 256, 257, 384, 500, 512, 768, 1000, 1024, 1152)
     long_scalar_array_lengths: tuple = (16382, 16383, 16384)
     long_lengths: tuple = (126, 127, 128, 129, 16383, 16384, 32766, 32767)
     # known-finding exclusions (each counted by the caller)
@@ -198,7 +198,8 @@ def field_value(draw, cd: ClassDesc, f: FieldDesc, profile: Profile, depth: int)
         if profile.long_arrays and draw(st.integers(0, 24)) == 0:
             inner = dataclasses.replace(profile, long_arrays=False, long_strings=False)
             lengths = profile.long_array_lengths + (profile.long_scalar_array_lengths if f.kind != "struct" else ())
-            n = draw(st.sampled_from(lengths))
+            # block sizes of bulk paths are arbitrary: besides the usual suspects, any length up to 1200 may be drawn
+            n = draw(st.one_of(st.sampled_from(lengths), st.sampled_from(lengths), st.integers(60, 1200)))
             if f.kind == "struct":
                 unit_st = tree_strategy(f.struct, inner, depth + 1)
             else:
